@@ -54,6 +54,13 @@ def chainRT (env : Env) (s : StructDef) : Bool :=
 def envRT (env : Env) : Bool :=
   env.structs.all fun s => s.allAttrs.all (fieldRT env) && chainRT env s
 
+/-- every declared field default equals itself under Python `==` (the one law of `ExtLaws` that mentions
+the environment; decidable, so the harness can evaluate it with the table-fed float comparison) -/
+def dfltsReflB (E : Ext) (env : Env) : Bool :=
+  env.structs.all fun s => s.allAttrs.all fun f => match f.dflt with
+    | some d => shallowEq E env d d
+    | none => true
+
 def dictKeys (kvs : List (PyVal × PyVal)) : List String :=
   kvs.filterMap fun kx => match kx.1 with
     | .str s => some s
